@@ -798,15 +798,15 @@ func (e *Engine) checkGuard(fr *Frame, p Ptr, write bool) {
 	if e.noFork > 0 {
 		panic(mergeAbort{"guard report inside merge"})
 	}
-	how := "read"
+	how := "read without its lock held"
 	if write {
-		how = "written"
+		how = "written without its lock held"
 		if g.readers > 0 {
-			how = "written under a read lock"
+			how = "written under a read lock (its lock held in shared mode only)"
 		}
 	}
 	_, m := e.query(e.ts.True, e.modelTermsOr())
-	e.reportViolation("unguarded", gi.name+" is "+how+" without its lock held (data race with any concurrent API call)", m)
+	e.reportViolation("unguarded", gi.name+" is "+how+" (data race with any concurrent API call)", m)
 }
 
 // unwindFail: a loop ran past the unwinding bound or the path past its step budget. Normally
